@@ -252,6 +252,30 @@ def run(ctx: Ctx) -> int:
 
     ctx.trusted_base += ["open()/fsspec.open() with a constant mode containing w/a/x/+ are the only ways `save` creates or truncates files"]
     ctx.assumptions += ["calls that can fail because of the configuration: " + ", ".join(sorted(FALLIBLE_LEAVES))]
+    # ---------------- C18.e: the main file refers to the sub-files that were written ----------------------------------
+    # in a multi-file save every sub-file goes next to the main file; the reference stored in the main configuration must
+    # name THAT file (derived from the path put on the output list), not the place the content was loaded from
+    sv = ctx.func("_core:ArgumentParser.save")
+    n_ref = 0
+    for fn_ in [sv] + [n_ for n_ in ast.walk(sv) if isinstance(n_, ast.FunctionDef) and n_ is not sv]:
+        for ap in [c for c in calls_in(fn_) if call_leaf(c) == "append" and c.args and isinstance(c.args[0], ast.Tuple) and len(c.args[0].elts) == 2 and isinstance(c.args[0].elts[0], ast.Name)]:
+            pv = ap.args[0].elts[0].id
+            blk = getattr(stmt_of(ap), "_jv_parent", None)
+            body = None
+            for fld in ("body", "orelse", "finalbody"):
+                lst = getattr(blk, fld, None)
+                if isinstance(lst, list) and stmt_of(ap) in lst:
+                    body = lst
+            if body is None:
+                continue
+            stores = [s_ for s_ in body if isinstance(s_, ast.Assign) and isinstance(s_.targets[0], ast.Subscript) and body.index(s_) > body.index(stmt_of(ap))]
+            for st in stores:
+                n_ref += 1
+                names_ = {x.id for x in ast.walk(st.value) if isinstance(x, ast.Name)}
+                ok = pv in names_
+                ctx.oblige("C18.e", ok, st, f"the reference written into the main configuration is derived from `{pv}`, the path the sub-file is written to" if ok else f"`{ast.unparse(st)[:70]}` stores a reference that is not derived from `{pv}` (the path the sub-file is written to): for a sub-file loaded from parts/optim.yaml or from an absolute path the saved main file points at a file that was not written - or back at the input, so edits made before saving are lost", fn=fn_)
+    ctx.floor("C18.e-subfile-references", n_ref, 1)
+
     return ctx.finish(
         explanation=(
             "Static ordering analysis of ArgumentParser.save and its nested closures on a CFG with exception edges: "
